@@ -67,6 +67,7 @@ type SolveOpts struct {
 	Consensus bool
 	WorkDir   string
 	Workers   int
+	NoModel   bool // skip counterexample refinement (used by invariant inference)
 }
 
 // raceSolvers runs the given solvers concurrently; returns when `need` of them said unsat or one said sat.
@@ -192,7 +193,10 @@ func solveAll(vcs []*FuncVC, opts SolveOpts, withCovers bool) {
 				for _, t := range tries {
 					j.o.TimeS += t.TimeS
 				}
-				if r.Status != "unsat" {
+				if opts.NoModel {
+					continue
+				}
+				if r.Status == "sat" {
 					// prefer a small, replayable counterexample
 					if hints := j.vc.smallModelHints(); len(hints) > 0 {
 						s2 := j.vc.smtFor(j.o, true, exprs, hints...)
